@@ -47,7 +47,7 @@ type c33Out struct {
 	} `json:"parse"`
 }
 
-func c33Node(t *testing.T, dir string, run, parse []c33Case) *c33Out {
+func c33Node(t *testing.T, dir string, run, parse []c33Case, timeoutMs ...int) *c33Out {
 	driver := filepath.Join(os.Getenv("VERIF_DIR"), "oracles", "c33_driver.js")
 	if _, err := os.Stat(driver); err != nil {
 		driver = "/verif/oracles/c33_driver.js"
@@ -56,7 +56,12 @@ func c33Node(t *testing.T, dir string, run, parse []c33Case) *c33Out {
 	in, out := filepath.Join(dir, "batch.json"), filepath.Join(dir, "out.json")
 	_ = os.Remove(out)
 
-	b, _ := json.Marshal(map[string]any{"run": run, "parse": parse})
+	doc := map[string]any{"run": run, "parse": parse}
+	if len(timeoutMs) > 0 {
+		doc["timeoutMs"] = timeoutMs[0]
+	}
+
+	b, _ := json.Marshal(doc)
 	if err := os.WriteFile(in, b, 0o644); err != nil {
 		t.Fatal(err)
 	}
@@ -175,6 +180,29 @@ func TestC33(t *testing.T) {
 		byID := map[string]map[string]c33Res{}
 		for _, x := range res.Run {
 			byID[x.ID] = x.Variants
+		}
+
+		// The per-script watchdog (5 s) may fire on a loaded machine: such cases are run again, alone, with a 2-minute
+		// watchdog. Only a script that still does not finish is reported (a minified script that hangs is a finding;
+		// an original that hangs is a generator defect).
+		var again []c33Case
+
+		for _, c := range run {
+			for _, v := range byID[c.ID] {
+				if strp(v.Thrown) == "TIMEOUT" {
+					again = append(again, c)
+					r.Count("watchdog.reruns", 1)
+
+					break
+				}
+			}
+		}
+
+		if len(again) > 0 {
+			res2 := c33Node(t, arena, again, nil, 120000)
+			for _, x := range res2.Run {
+				byID[x.ID] = x.Variants
+			}
 		}
 
 		baseFailed := map[string]bool{} // "<n>/<mode>" of base programs that failed
